@@ -1,8 +1,14 @@
 (** Extraction of the C02 model (ExtrOcamlBasic only; N/Z/positive/nat stay inductive). *)
 Require Extraction.
 Require Import ExtrOcamlBasic.
-From Kardia Require Import C02.Model.
+From Kardia Require Import C02.Model C02.ModelExt.
 Extraction Language OCaml.
 Set Extraction KeepSingleton.
 From Kardia Require Import Base.Anchor.
-Extraction "../ocaml/C02/model.ml" Anchor.anchor Model.new_voteset Model.step Model.run.
+Extraction "../ocaml/C02/model.ml" Anchor.anchor Model.new_voteset Model.step Model.run
+  Model.make_commit Model.has_two_thirds_any Model.has_all Model.bit_array
+  ModelExt.votes_ids ModelExt.bits_by_block ModelExt.is_commit ModelExt.add_vote_o
+  ModelExt.vote_validate_basic ModelExt.vote_verify ModelExt.type_valid
+  ModelExt.commit_to_voteset ModelExt.verify_commit_x
+  ModelExt.hvs_new ModelExt.hvs_set_round ModelExt.hvs_add_vote ModelExt.hvs_set_peer_maj23
+  ModelExt.pol_info ModelExt.get_vs ModelExt.rs_find.
